@@ -267,11 +267,15 @@ package vm
 // calls pops what a successful deferred call pushed, so running the defers never raises the stack - whatever kind of
 // callable was deferred (a script function, a builtin, a bound method, a partial).
 //@ func (*VirtualMachine).push
-//@ props C04
+//@ props C04 C07
 //@ requires vm != nil
 //@ assume[vm.stack.bounds] -1 <= vm.sp && vm.sp < 1023
 //@ modifies vm.sp, vm.stack
 //@ ensures[C04.vm.push] vm.sp == old(vm.sp) + 1
+// C07: the stack pointer is advanced only once the slot it will point at holds the pushed value. The store into the
+// slot is what panics when the stack is full, so an overflow (recovered further up) leaves sp in range and the
+// deferred resumeFrame calls and later Calls on the VM find a usable stack (KF-76 fixed: push advanced sp first).
+//@ storeguard[C07.push.order] VirtualMachine.sp: value == old(vm.sp) + 1 && vm.stack[value] == obj
 
 //@ func (*VirtualMachine).pop
 //@ props C04
